@@ -97,34 +97,53 @@ Section StandardEngine.
 End StandardEngine.
 
 (* ------------------------------------------------------------------ control variates *)
-(* biased sample covariance np.cov(..., bias=True) *)
-Definition cov (x y : list Q) : Q :=
-  mean (map (fun p => (fst p - mean x) * (snd p - mean y)) (combine x y)).
+(* ControlVariates.helper_compute_coefficients(x, y, prices), one payoff component:
+     covariance = np.cov(x.T, y.T, bias=True); sigma_x = covariance[:-1,:-1]; sigma_xy = covariance[:-1,-1]
+     b_star = 0 if min|sigma_x| < 1e-12 else inv(sigma_x) @ sigma_xy
+     cv_stats = y - np.dot(b_star, (x - prices).T)
+   Arrays are read through index functions:  X k i = control k on path i,  Y i = payoff on path i,
+   p k = given price of control k (repaired code: each control centred on its own price). *)
+Definition Sn (n : nat) (f : nat -> Q) : Q := Qsum (map f (seq 0 n)).
+Definition En (n : nat) (f : nat -> Q) : Q := Sn n f / qnat n.
+(* np.cov(..., bias=True): mean of the products of the centred samples *)
+Definition Cn (n : nat) (f g : nat -> Q) : Q :=
+  let mf := Qred (En n f) in let mg := Qred (En n g) in      (* Qred: value unchanged, numbers kept small *)
+  Qred (En n (fun i => (f i - mf) * (g i - mg))).
 
-(* dot product b . v *)
-Fixpoint dot (b v : list Q) : Q :=
-  match b, v with
-  | bk :: b', vk :: v' => bk * vk + dot b' v'
-  | _, _ => 0
+(* np.dot(b, v) with v read through an index function starting at k0 *)
+Fixpoint dotf (b : list Q) (f : nat -> Q) (k0 : nat) : Q :=
+  match b with
+  | [] => 0
+  | bk :: r => bk * f k0 + dotf r f (S k0)
   end.
 
-(* helper_compute_coefficients: cv_stats = y - np.dot(b_star, (x - prices).T)
-   xs : list of rows (one entry per control), b : the coefficients (b_star), prices : given prices *)
-Definition cv_adjust (b prices : list Q) (xs : list (list Q)) (y : list Q) : list Q :=
-  map (fun p => snd p - dot b (map (fun xp => fst xp - snd xp) (combine (fst p) prices))) (combine xs y).
+Definition cv_adj (b : list Q) (p : nat -> Q) (X : nat -> nat -> Q) (Y : nat -> Q) (i : nat) : Q :=
+  Y i - dotf b (fun k => X k i - p k) 0.
 
 (* the normal equations  Sigma_X b = Sigma_XY  that b_star = inv(Sigma_X) @ Sigma_XY solves *)
-Definition xcol (k : nat) (xs : list (list Q)) : list Q := map (fun r => nth k r 0) xs.
-Definition sigma_x_row (nc : nat) (xs : list (list Q)) (j : nat) : list Q :=
-  map (fun k => cov (xcol j xs) (xcol k xs)) (seq 0 nc).
-Definition sigma_xy (nc : nat) (xs : list (list Q)) (y : list Q) : list Q :=
-  map (fun j => cov (xcol j xs) y) (seq 0 nc).
-Definition normal_residuals (nc : nat) (b : list Q) (xs : list (list Q)) (y : list Q) : list Q :=
-  map (fun j => dot (sigma_x_row nc xs j) b - cov (xcol j xs) y) (seq 0 nc).
+Definition normal_eq (n : nat) (b : list Q) (X : nat -> nat -> Q) (Y : nat -> Q) : Prop :=
+  forall j, (j < length b)%nat -> dotf b (fun k => Cn n (X j) (X k)) 0 == Cn n (X j) Y.
 
-(* one control: b_star = cov(x,y)/var(x) exactly; the code's threshold  min|Sigma_X| < 1e-12 -> b = 0 *)
-Definition b_star_1 (x y : list Q) : Q :=
-  if Qltb (Qabs (cov x x)) (1 # 1000000000000) then 0 else cov x y / cov x x.
+(* b_star as the code computes it, for one and two controls (closed-form inverse) *)
+Definition cv_eps : Q := 1 # 1000000000000.
+Definition b_star (n nc : nat) (X : nat -> nat -> Q) (Y : nat -> Q) : list Q :=
+  match nc with
+  | 1%nat => let s := Cn n (X 0%nat) (X 0%nat) in
+             if Qltb (Qabs s) cv_eps then [0] else [Cn n (X 0%nat) Y / s]
+  | 2%nat => let a := Cn n (X 0%nat) (X 0%nat) in let c := Cn n (X 0%nat) (X 1%nat) in let d := Cn n (X 1%nat) (X 1%nat) in
+             let u := Cn n (X 0%nat) Y in let v := Cn n (X 1%nat) Y in
+             if Qltb (Qminb (Qabs a) (Qminb (Qabs c) (Qabs d))) cv_eps then [0; 0]
+             else let det := a * d - c * c in [(d * u - c * v) / det; (a * v - c * u) / det]
+  | _ => repeat 0 nc
+  end.
+
+(* correspondence helpers: arrays given as lists of rows *)
+Definition tabX (xs : list (list Q)) (k i : nat) : Q := nth k (nth i xs []) 0.
+Definition tabY (y : list Q) (i : nat) : Q := nth i y 0.
+Definition tabP (p : list Q) (k : nat) : Q := nth k p 0.
+Definition cv_adjust_tab (nc : nat) (p : list Q) (xs : list (list Q)) (y : list Q) : list Q :=
+  let n := length y in
+  map (cv_adj (b_star n nc (tabX xs) (tabY y)) (tabP p) (tabX xs) (tabY y)) (seq 0 n).
 
 (* ------------------------------------------------------------------ comparison with a tolerance *)
 (* |a - b| <= tol * max(1, |a|): used where the float computation is not exact (division by n) *)
@@ -135,3 +154,25 @@ Fixpoint Qclose_list (tol : Q) (a b : list Q) : bool :=
   | x :: a', y :: b' => Qclose tol x y && Qclose_list tol a' b'
   | _, _ => false
   end.
+
+(* ------------------------------------------------------------------ helpers of the vm_compute correspondence (C07) *)
+Definition strike_payoff (strikes : list Q) (x : Q) : list Q := map (fun K => Qmaxb (x - K) 0) strikes.
+Definition tab_path (t : list Q) (i : nat) : Q := nth i t 0.
+Fixpoint qrows_eqb (a b : list (list Q)) : bool :=
+  match a, b with
+  | [], [] => true
+  | x :: a', y :: b' => (fix eq (u v : list Q) : bool :=
+                           match u, v with
+                           | [], [] => true
+                           | p :: u', q :: v' => Qeq_bool p q && eq u' v'
+                           | _, _ => false
+                           end) x y && qrows_eqb a' b'
+  | _, _ => false
+  end.
+(* expected = (rows, price per component, mc_stddev^2 per component) observed on Engine.price *)
+Definition corr_std (tol : Q) (strikes paths : list Q) (df notional : Q) (n d : nat)
+           (e : list (list Q) * list Q * list Q) : bool :=
+  let '(erows, eprice, evar) := e in
+  let rows := std_engine (strike_payoff strikes) (tab_path paths) df notional n (repeat (repeat (9 # 7) d) n) in
+  qrows_eqb rows erows && Qclose_list tol (std_price d rows) eprice &&
+  (if Nat.ltb n 2 then true else Qclose_list tol (mc_var_repaired d rows) evar).
